@@ -474,8 +474,7 @@ func MonProtocol(a *Analysis) []Violation {
 				vs = append(vs, Violation{"Protocol", c.N, name, "executed without having been reported as candidate in the same cycle"})
 			}
 		}
-		last := i == len(a.Cycles)-1
-		cut := last && (a.Res.Err != nil || a.Res.Panic != nil || a.Res.Aborted) && len(c.SetRules) == 0
+		cut := a.cutShort(i)
 		for name, flags := range c.Evals {
 			if len(flags) > 1 {
 				vs = append(vs, Violation{"Protocol", c.N, name, fmt.Sprintf("evaluated %d times in one cycle", len(flags))})
@@ -585,8 +584,8 @@ func MonControl(a *Analysis) []Violation {
 				vs = append(vs, Violation{"ControlEffects", c.N, name, "fired although retracted earlier in this Execute call"})
 			}
 		}
-		last := i == len(a.Cycles)-1
-		cut := last && (a.Res.Err != nil || a.Res.Panic != nil || a.Res.Aborted) && len(c.SetRules) == 0
+		// (a cycle ended by any error is not judged here: what it must still report is C06's matter)
+		cut := i == len(a.Cycles)-1 && (a.Res.Err != nil || a.Res.Panic != nil || a.Res.Aborted) && len(c.SetRules) == 0
 		if !cut {
 			for name := range c.Active {
 				if len(c.Evals[name]) == 0 {
@@ -707,4 +706,18 @@ func (a *Analysis) limitDue() bool {
 		}
 	}
 	return false
+}
+
+// cutShort: cycle i is the last one and may legitimately report fewer evaluations than there
+// are active rules: it was ended by a panic, by the end of the context or by a failed condition
+// under ReturnErrOnFailedRuleEvaluation. The cycle budget is no such reason - the cycle that
+// ends in the cycle-limit error still reports every active rule.
+func (a *Analysis) cutShort(i int) bool {
+	if i != len(a.Cycles)-1 || len(a.Cycles[i].SetRules) > 0 {
+		return false
+	}
+	if a.Res.Panic != nil || a.Res.Aborted {
+		return true
+	}
+	return a.Res.Err != nil && (ctxEnded(a) || retErrEnded(a) || !a.limitDue())
 }
